@@ -135,7 +135,13 @@ func cmpMap(path string, want *xnode, got any) string {
 			return bad("map encoder has %v (%T), want float64 %v bit-for-bit", got, got, want.f)
 		}
 	case "f32":
-		if f, ok := got.(float32); !ok || math.Float32bits(f) != math.Float32bits(float32(want.f)) {
+		// the expectation keeps the value widened to float64, which quiets a signalling NaN:
+		// compare with the original float32 when it is known, and otherwise treat NaNs as a class
+		wantBits := math.Float32bits(float32(want.f))
+		if r, isF32 := want.raw.(float32); isF32 {
+			wantBits = math.Float32bits(r)
+		}
+		if f, ok := got.(float32); !ok || (math.Float32bits(f) != wantBits && !(f != f && want.f != want.f && want.raw == nil)) {
 			return bad("map encoder has %v (%T), want float32 %v bit-for-bit", got, got, want.f)
 		}
 	case "c128":
@@ -329,6 +335,20 @@ func TestRegressC02(t *testing.T) {
 	for i, c := range cases {
 		if c.got != c.want {
 			t.Fatalf("case %d: got %q want %q", i, c.got, c.want)
+		}
+	}
+	// harness regression (false alarm of the thorough tier, corrected): a float32
+	// signalling NaN must compare bit-for-bit with itself through the map-encoder oracle
+	for _, bits := range []uint32{0x7f800001, 0xffa00000, 0x7fc00000, 0x7fbfffff} {
+		for _, ptr := range []bool{false, true} {
+			sp := &Spec{Kind: "f32", Key: "a", V: math.Float32frombits(bits), ViaAny: true, Ptr: ptr}
+			menc := zapcore.NewMapObjectEncoder()
+			fo := newObjX()
+			sp.Field().AddTo(menc)
+			sp.ExpectField(fo)
+			if e := cmpMap("$", fo.root, menc.Fields); e != "" {
+				t.Fatalf("float32 NaN %08x: %s", bits, e)
+			}
 		}
 	}
 }
